@@ -44,6 +44,10 @@ def fortran_plan(lib, r):
                 c["via"] = "generic" if (k + gi) % 2 == 0 else "specific"
                 out.append(c)
             continue
+        rt = f["ret"]
+        if (not f.get("cls") and not f.get("template") and rt["kind"] == "val" and ir.TYPES[rt["T"]]["k"] in ("i", "r") and not ir.TYPES[rt["T"]].get("char")
+                and f["params"] and all(p["kind"] == "val" for p in f["params"]) and call.get("op") is None):
+            call["twice"] = True
         out.append(call)
     return fdrv.plan_lengths(out, lib, r)
 
@@ -69,7 +73,9 @@ def run_library(case):
         fobjs = []
         for f in [os.path.join(engine.NATIVE, "vf_out.f90")] + ff + ["driver.f90"]:
             o = os.path.basename(f) + ".o"
-            rc, so, se = engine.sh(["gfortran"] + fflags + ["-c", f, "-o", o], out)
+            # the caller's code is optimised (what the interfaces promise the compiler, e.g. PURE, then matters)
+            fl_ = [x if x != "-O0" else "-O2" for x in fflags] if f == "driver.f90" else fflags
+            rc, so, se = engine.sh(["gfortran"] + fl_ + ["-c", f, "-o", o], out)
             if rc != 0:
                 where, msg = engine.first_error(se)
                 kind = "driver-does-not-compile-against-generated-module" if f == "driver.f90" else "generated-fortran-does-not-compile"
